@@ -1,6 +1,7 @@
 package props
 
 import (
+	"encoding/binary"
 	"errors"
 	"fmt"
 	"math"
@@ -36,6 +37,38 @@ type C14Case struct {
 	Cut int `json:"cut"`
 	// Reuse: messages of the same type are decoded into one reused target object
 	Reuse bool `json:"reuse,omitempty"`
+	// Long, when set, replaces everything above: the first Have bytes of a series too long to build in memory
+	Long *LongSeries `json:"long,omitempty"`
+}
+
+// LongSeries: the fixed part of a series of N values (from, from + N*step, step) followed by Have zero bytes - a
+// truncated valid message, however many values it announces (up to 2^31-1: a whole 1s:10y archive has 315360000)
+type LongSeries struct {
+	From uint32 `json:"from"`
+	Step uint32 `json:"step"`
+	N    int64  `json:"n"`
+	Have int    `json:"have"`
+}
+
+func runC14Long(l LongSeries, ev *Evid) (fs []Finding) {
+	b := make([]byte, 12+l.Have)
+	binary.BigEndian.PutUint32(b[0:], l.From)
+	binary.BigEndian.PutUint32(b[4:], uint32(int64(l.From)+l.N*int64(l.Step)))
+	binary.BigEndian.PutUint32(b[8:], l.Step)
+	var ts wt.TimeSeries
+	var err error
+	if pm := guard(func() { _, err = ts.TakeFrom(b) }); pm != "" {
+		return []Finding{{Property: "C14", Key: "decode-panic", Detail: fmt.Sprintf("series of %d values, %d bytes given: %s", l.N, len(b), pm)}}
+	}
+	var w *wt.WantLargerBufferError
+	if !errors.As(err, &w) {
+		return []Finding{{Property: "C14", Key: "prefix-misreport", Detail: fmt.Sprintf("series: the %d-byte prefix of a valid %d-byte message (%d values of step %d from %d): error %v is not a want-larger-buffer request", len(b), 12+8*l.N, l.N, l.Step, l.From, err)}}
+	}
+	if int64(w.WantedBufSize) != 12+8*l.N {
+		return []Finding{{Property: "C14", Key: "prefix-size", Detail: fmt.Sprintf("series: the %d-byte prefix of a valid %d-byte message asks for %d bytes", len(b), 12+8*l.N, w.WantedBufSize)}}
+	}
+	ev.Count(HashJSON(l), true, "kind=long-series-prefix")
+	return nil
 }
 
 type codec interface {
@@ -156,6 +189,9 @@ func bytesEq(a, b []byte) bool {
 }
 
 func runC14(c C14Case, ev *Evid) (fs []Finding) {
+	if c.Long != nil {
+		return runC14Long(*c.Long, ev)
+	}
 	add := func(key, format string, args ...interface{}) {
 		fs = append(fs, Finding{Property: "C14", Key: key, Detail: fmt.Sprintf(format, args...)})
 	}
@@ -427,6 +463,22 @@ var allKinds = []string{"header", "series", "series", "series", "nil-series", "p
 
 func genC14(t *rapid.T) C14Case {
 	var c C14Case
+	if rapid.IntRange(0, 39).Draw(t, "longSeries") == 0 {
+		// value counts around the powers of two between 2^16 and 2^31 (and the whole range at random)
+		var n int64
+		if rapid.Bool().Draw(t, "nearPower") {
+			n = int64(1)<<uint(rapid.IntRange(16, 31).Draw(t, "power")) + rapid.Int64Range(-2, 1).Draw(t, "powerDelta")
+		} else {
+			n = rapid.Int64Range(1<<16, 1<<31-1).Draw(t, "values")
+		}
+		if n > 1<<31-1 {
+			n = 1<<31 - 1
+		}
+		step := uint32(rapid.Int64Range(1, (1<<32-1)/n).Draw(t, "longStep"))
+		from := uint32(rapid.Int64Range(0, 1<<32-1-n*int64(step)).Draw(t, "longFrom"))
+		c.Long = &LongSeries{From: from, Step: step, N: n, Have: rapid.SampledFrom([]int{0, 1, 8, 100, 4093}).Draw(t, "have")}
+		return c
+	}
 	n := rapid.IntRange(1, 4).Draw(t, "msgs")
 	for i := 0; i < n; i++ {
 		c.Msgs = append(c.Msgs, genMsg(t, allKinds))
